@@ -103,6 +103,8 @@ def mutants(master, workers, only=None, run_tests=True):
     for p in patches:
         if p.endswith("patch.diff"):
             meta = json.load(open(os.path.join(os.path.dirname(p), "meta.json")))
+            if meta.get("retired"):
+                continue
             prop = meta["property"]
             name = os.path.basename(os.path.dirname(p))
         else:
